@@ -766,3 +766,167 @@ Section FromLines.
     unfold process. destruct (_ ++ _); reflexivity.
   Qed.
 End FromLines.
+
+Lemma obind_process_ok {X} m lg errs (x : X) l h :
+  obind (process m lg errs) (fun _ => oret x) = (l, Ok h) -> h = x.
+Proof.
+  unfold process. destruct errs as [|e0 errs]; [cbn; congruence|].
+  destruct m; cbn; congruence.
+Qed.
+
+Lemma existsb_map {X Y} (f : X -> Y) (p : Y -> bool) l :
+  existsb p (map f l) = existsb (fun x => p (f x)) l.
+Proof. induction l as [|x l IH]; simpl; [reflexivity|]. now rewrite IH. Qed.
+
+Section Accessors.
+  Context {C : Type} (registry : list (scheme C)).
+
+  (* whatever the stringency: a returned header holds the expected records,
+     and its errors are the diagnostics followed by the header-level checks *)
+  Lemma from_lines_ok lines m lg l h :
+    header_from_lines registry lines m lg = (l, Ok h) ->
+    let K := fst (expected_header lines) in
+    hrecs h = map (final_rec K) K /\
+    exists sch, h_scheme registry (hrecs h) = Ok sch /\
+      herrs h = map to_err (snd (expected_header lines)) ++ validate_errs registry (hrecs h) sch.
+  Proof.
+    intros H. destruct (from_lines_spec_any_mode registry lines m lg) as [sch [Hs Hf]].
+    cbv zeta in Hs, Hf. rewrite Hf in H. apply obind_process_ok in H. subst h.
+    cbn [hrecs herrs]. split; [reflexivity|]. exists sch. split; [assumption|reflexivity].
+  Qed.
+
+  Lemma from_lines_ok_recs lines m lg l h :
+    header_from_lines registry lines m lg = (l, Ok h) ->
+    hrecs h = map (final_rec (fst (expected_header lines))) (fst (expected_header lines)).
+  Proof. intros H. now apply from_lines_ok in H as [H _]. Qed.
+
+  (* ----- accessors of the finished records, for any kept list ----- *)
+  Lemma h_version_final K : h_version (map (final_rec K) K) = kept_value SP_VERSION K.
+  Proof.
+    unfold h_version. rewrite assoc_final, <- K_VERSION_eq.
+    destruct (kept_value K_VERSION K) as [v|]; [|reflexivity].
+    unfold option_map, hval. now rewrite interpret_eq, version_ne_contigs, version_ne_sort.
+  Qed.
+
+  Lemma h_annotation_final K : h_annotation (map (final_rec K) K) = kept_value SP_ANNOT K.
+  Proof.
+    unfold h_annotation. rewrite assoc_final, <- K_ANNOT_eq.
+    destruct (kept_value K_ANNOT K) as [v|]; [|reflexivity].
+    unfold option_map, hval. now rewrite interpret_eq, annot_ne_contigs, annot_ne_sort.
+  Qed.
+
+  Lemma h_contigs_final K :
+    h_contigs (map (final_rec K) K) = option_map (split COMMA) (kept_value SP_CONTIGS K).
+  Proof.
+    unfold h_contigs. rewrite assoc_final, <- K_CONTIGS_eq.
+    destruct (kept_value K_CONTIGS K) as [v|]; [|reflexivity].
+    unfold option_map, hval. now rewrite interpret_eq, str_eqb_refl.
+  Qed.
+
+  Lemma h_sort_order_final_none K :
+    kept_value SP_SORT K = None -> h_sort_order (map (final_rec K) K) = (SoUnsorted, []).
+  Proof.
+    intros H. unfold h_sort_order. rewrite assoc_final.
+    change (kept_value K_SORT K) with (kept_value SP_SORT K). now rewrite H.
+  Qed.
+
+  Lemma h_sort_order_final_some K v :
+    (forall p k v, In (p, k, v) K -> wf_pragma k v) ->
+    kept_value SP_SORT K = Some v ->
+    exists o cs, interpret K SP_SORT v = POrder (so_name o) cs /\ so_name o = v /\
+                 h_sort_order (map (final_rec K) K) = (o, cs).
+  Proof.
+    intros Hwf H. unfold h_sort_order. rewrite assoc_final.
+    change (kept_value K_SORT K) with (kept_value SP_SORT K). rewrite H.
+    destruct (kept_value_in _ _ _ H) as [p Hin].
+    destruct (Hwf _ _ _ Hin) as [_ [_ [_ [_ Hs]]]]. specialize (Hs eq_refl).
+    apply existsb_str_in, known_name_iff in Hs as [o Ho].
+    exists o, (order_contigs K v). change SP_SORT with K_SORT.
+    unfold option_map, hval. rewrite interpret_eq, sort_ne_contigs, str_eqb_refl.
+    cbn [value_of]. rewrite Ho. apply so_of_name_some in Ho. now rewrite Ho.
+  Qed.
+
+  Theorem accessors_spec lines m lg l h :
+    header_from_lines registry lines m lg = (l, Ok h) ->
+    let K := fst (expected_header lines) in
+    h_version (hrecs h) = kept_value SP_VERSION K /\
+    h_annotation (hrecs h) = kept_value SP_ANNOT K /\
+    h_contigs (hrecs h) = option_map (split COMMA) (kept_value SP_CONTIGS K) /\
+    (kept_value SP_SORT K = None -> h_sort_order (hrecs h) = (SoUnsorted, [])) /\
+    (forall v, kept_value SP_SORT K = Some v ->
+       exists o cs, interpret K SP_SORT v = POrder (so_name o) cs /\ so_name o = v /\
+                    h_sort_order (hrecs h) = (o, cs)).
+  Proof.
+    intros H K. apply from_lines_ok_recs in H. fold K in H. rewrite H.
+    split; [apply h_version_final|]. split; [apply h_annotation_final|].
+    split; [apply h_contigs_final|]. split; [apply h_sort_order_final_none|].
+    intros v. apply h_sort_order_final_some. intros p k v'. apply expected_kept_wf.
+  Qed.
+
+  (* ----- the header-level checks as a decision table ----- *)
+  Definition version_known (recs : list (str * hrec)) : bool :=
+    match assoc K_VERSION recs with
+    | Some r => existsb (fun s => hval_is_text (hval r) (s_version s)) registry
+    | None => false
+    end.
+  Definition annot_known (recs : list (str * hrec)) : bool :=
+    match assoc K_ANNOT recs with
+    | Some r => existsb (fun s => hval_is_text (hval r) (s_annot s)) registry
+    | None => false
+    end.
+  Definition sch_basic (sch : option (scheme C)) : bool :=
+    match sch with Some s => s_is_basic s | None => false end.
+
+  Lemma known_iff (f : scheme C -> str) hv :
+    existsb (fun s => hval_is_text hv (f s)) registry = true <->
+    exists t, hv = HText t /\ In t (map f registry).
+  Proof.
+    rewrite existsb_exists. split.
+    - intros [s [Hs E]]. destruct hv as [t| |]; try discriminate.
+      apply str_eqb_eq in E. exists t. split; [reflexivity|]. rewrite E. now apply in_map.
+    - intros [t [-> Hin]]. apply in_map_iff in Hin as [s [<- Hs]].
+      exists s. split; [assumption|apply str_eqb_refl].
+  Qed.
+
+  Theorem checks_decision_table recs sch :
+    map etpe (validate_errs registry recs sch) =
+    header_checks (h_contains K_VERSION recs) (version_known recs) (sch_basic sch)
+                  (h_contains K_ANNOT recs) (annot_known recs) /\
+    Forall (fun e => eline e = None) (validate_errs registry recs sch).
+  Proof.
+    unfold validate_errs, header_checks, version_known, annot_known, h_contains, sch_basic.
+    destruct (assoc K_VERSION recs) as [rv|]; cbn [is_some is_none negb];
+    [destruct (existsb _ registry)|];
+    (destruct (match sch with Some s => s_is_basic s | None => false end);
+     [destruct (assoc K_ANNOT recs) as [ra|]
+     |destruct (assoc K_ANNOT recs) as [ra|]; [destruct (existsb _ registry)|]]);
+    cbn; (split; [reflexivity|repeat constructor]).
+  Qed.
+
+  (* for a parsed header the inputs of the table are read off the kept pragmas *)
+  Theorem parsed_checks lines m lg l h sch :
+    header_from_lines registry lines m lg = (l, Ok h) ->
+    let K := fst (expected_header lines) in
+    map etpe (validate_errs registry (hrecs h) sch) =
+    header_checks (is_some (kept_value SP_VERSION K))
+                  (match kept_value SP_VERSION K with
+                   | Some v => existsb (str_eqb v) (map s_version registry) | None => false end)
+                  (sch_basic sch)
+                  (is_some (kept_value SP_ANNOT K))
+                  (match kept_value SP_ANNOT K with
+                   | Some v => existsb (str_eqb v) (map s_annot registry) | None => false end).
+  Proof.
+    intros H K. apply from_lines_ok_recs in H. fold K in H.
+    rewrite (proj1 (checks_decision_table _ _)), H.
+    unfold h_contains, version_known, annot_known. rewrite !assoc_final.
+    rewrite <- K_VERSION_eq, <- K_ANNOT_eq. f_equal.
+    - now destruct (kept_value K_VERSION K).
+    - destruct (kept_value K_VERSION K) as [v|]; [|reflexivity].
+      unfold option_map, hval. rewrite interpret_eq, version_ne_contigs, version_ne_sort.
+      cbn [value_of]. now rewrite existsb_map.
+    - now destruct (kept_value K_ANNOT K).
+    - destruct (kept_value K_ANNOT K) as [v|]; [|reflexivity].
+      unfold option_map, hval. rewrite interpret_eq, annot_ne_contigs, annot_ne_sort.
+      cbn [value_of]. now rewrite existsb_map.
+  Qed.
+End Accessors.
